@@ -142,6 +142,7 @@ package redisemu
 
 // the walk over the client registry keeps the caller's lock state, and so must the visitor
 //@ func processAllClients
+//@ guards on
 //@ prop C09 C08
 //@ safetyprop none
 //@ requires free registry: forall k int64 :: haskey(clients, k) ==> clients[k] != nil && clients[k].client != nil
